@@ -4,7 +4,7 @@ does the patch apply, does its demonstration still fail on the current (fixed) t
 usage: tools/matrix.py [--checks own|all] [--only ID,...] [--jobs N]"""
 import os, sys, json, subprocess, shutil, argparse, concurrent.futures, time
 VERIF = os.path.dirname(os.path.dirname(os.path.abspath(__file__)))
-ROOT = "/tmp/mx"
+ROOT = "/tmp/mx-%d" % os.getpid()    # per process: two matrix runs must not share (and remove) one scratch root
 ALL = ["C%02d" % i for i in range(1, 21)]
 
 def sh(cmd, cwd=None, env=None, timeout=3000):
